@@ -240,6 +240,8 @@ pub struct NamedFile {
 
 impl NamedFile {
     fn new<P: AsRef<Utf8Path>>(final_path: P) -> IoResult<Box<Self>> {
+        #[cfg(jubako_verif)]
+        crate::verif::io::before(crate::verif::io::IoKind::Create, final_path.as_ref().as_str())?;
         let file = OpenOptions::new()
             .read(true)
             .write(true)
@@ -260,22 +262,50 @@ impl NamedFile {
 
 impl Seek for NamedFile {
     fn seek(&mut self, pos: io::SeekFrom) -> IoResult<u64> {
+        #[cfg(jubako_verif)]
+        if let Some(r) = crate::verif::io::simple(
+            crate::verif::io::IoKind::Seek,
+            self.final_path.as_str(),
+            &mut || self.file.seek(pos),
+        ) {
+            return r;
+        }
         self.file.seek(pos)
     }
 }
 
 impl io::Write for NamedFile {
     fn write(&mut self, buf: &[u8]) -> IoResult<usize> {
+        #[cfg(jubako_verif)]
+        if let Some(r) =
+            crate::verif::io::write(self.final_path.as_str(), buf, &mut |b| self.file.write(b))
+        {
+            return r;
+        }
         self.file.write(buf)
     }
 
     fn flush(&mut self) -> IoResult<()> {
+        #[cfg(jubako_verif)]
+        if let Some(r) = crate::verif::io::simple(
+            crate::verif::io::IoKind::Flush,
+            self.final_path.as_str(),
+            &mut || self.file.flush(),
+        ) {
+            return r;
+        }
         self.file.flush()
     }
 }
 
 impl io::Read for NamedFile {
     fn read(&mut self, buf: &mut [u8]) -> IoResult<usize> {
+        #[cfg(jubako_verif)]
+        if let Some(r) =
+            crate::verif::io::read(self.final_path.as_str(), buf, &mut |b| self.file.read(b))
+        {
+            return r;
+        }
         self.file.read(buf)
     }
 }
@@ -285,6 +315,10 @@ impl OutStream for NamedFile {
         &mut self,
         reader: Box<dyn crate::creator::InputReader>,
     ) -> IoResult<(u64, MaybeFileReader)> {
+        #[cfg(jubako_verif)]
+        if crate::verif::io::active() {
+            return crate::verif::copy_through(self, reader);
+        }
         self.file.copy(reader)
     }
 }
@@ -305,6 +339,8 @@ pub struct AtomicOutFile {
 
 impl AtomicOutFile {
     pub fn new<P: AsRef<Utf8Path>>(final_path: P) -> IoResult<Box<Self>> {
+        #[cfg(jubako_verif)]
+        crate::verif::io::before(crate::verif::io::IoKind::Create, final_path.as_ref().as_str())?;
         let parent = final_path.as_ref().parent().unwrap();
         let temp_file = tempfile::NamedTempFile::new_in(parent)?;
         Ok(Box::new(Self {
@@ -316,22 +352,50 @@ impl AtomicOutFile {
 
 impl Seek for AtomicOutFile {
     fn seek(&mut self, pos: io::SeekFrom) -> IoResult<u64> {
+        #[cfg(jubako_verif)]
+        if let Some(r) = crate::verif::io::simple(
+            crate::verif::io::IoKind::Seek,
+            self.final_path.as_str(),
+            &mut || self.temp_file.seek(pos),
+        ) {
+            return r;
+        }
         self.temp_file.seek(pos)
     }
 }
 
 impl io::Write for AtomicOutFile {
     fn write(&mut self, buf: &[u8]) -> IoResult<usize> {
+        #[cfg(jubako_verif)]
+        if let Some(r) = crate::verif::io::write(self.final_path.as_str(), buf, &mut |b| {
+            self.temp_file.write(b)
+        }) {
+            return r;
+        }
         self.temp_file.write(buf)
     }
 
     fn flush(&mut self) -> IoResult<()> {
+        #[cfg(jubako_verif)]
+        if let Some(r) = crate::verif::io::simple(
+            crate::verif::io::IoKind::Flush,
+            self.final_path.as_str(),
+            &mut || self.temp_file.flush(),
+        ) {
+            return r;
+        }
         self.temp_file.flush()
     }
 }
 
 impl io::Read for AtomicOutFile {
     fn read(&mut self, buf: &mut [u8]) -> IoResult<usize> {
+        #[cfg(jubako_verif)]
+        if let Some(r) = crate::verif::io::read(self.final_path.as_str(), buf, &mut |b| {
+            self.temp_file.read(b)
+        }) {
+            return r;
+        }
         self.temp_file.read(buf)
     }
 }
@@ -341,6 +405,10 @@ impl OutStream for AtomicOutFile {
         &mut self,
         reader: Box<dyn crate::creator::InputReader>,
     ) -> IoResult<(u64, MaybeFileReader)> {
+        #[cfg(jubako_verif)]
+        if crate::verif::io::active() {
+            return crate::verif::copy_through(self, reader);
+        }
         self.temp_file.as_file_mut().copy(reader)
     }
 }
@@ -348,9 +416,19 @@ impl OutStream for AtomicOutFile {
 impl private::Sealed for AtomicOutFile {}
 impl PackRecipient for AtomicOutFile {
     fn close_file(self: Box<Self>) -> Result<Utf8PathBuf> {
+        #[cfg(jubako_verif)]
+        crate::verif::io::before(
+            crate::verif::io::IoKind::Persist,
+            self.final_path.as_str(),
+        )?;
         self.temp_file
             .persist(&self.final_path)
             .map_err(|e| e.error)?;
+        #[cfg(jubako_verif)]
+        crate::verif::io::after(
+            crate::verif::io::IoKind::Persisted,
+            self.final_path.as_str(),
+        );
         Ok(self.final_path)
     }
 }
